@@ -159,8 +159,14 @@ class Ctx:
         st = gen = 0
         for r, part, tf in zip(results, parts, files):
             if r.rc != 0:
-                raise tlc.MachineryError("trace validation %s: TLC exit %s on %s\n%s" % (
-                    module, r.rc, tf, "\n".join(r.out.splitlines()[-50:])))
+                ls = r.out.splitlines()
+                errs = [i for i, l in enumerate(ls) if l.startswith("Error:")]
+                msg = "\n".join("\n".join(ls[i:i + 6]) for i in errs[:3])
+                keep = os.path.join(EVID, "tmp")
+                os.makedirs(keep, exist_ok=True)
+                shutil.copy(tf, os.path.join(keep, os.path.basename(tf)))
+                raise tlc.MachineryError("trace validation %s: TLC exit %s on %s (copied to evidence/tmp)\n%s" % (
+                    module, r.rc, tf, msg))
             v = r.tuples("VALIDATED")
             if not v or v[-1][1] != len(part):
                 raise tlc.MachineryError("trace validation %s: %s traces in, %s validated\n%s" % (
